@@ -86,3 +86,129 @@ Print Assumptions dec_uint_len_ext_thm.
 Print Assumptions dec_frames_len_nil.
 Print Assumptions dec_uint_len_nil.
 Print Assumptions dec_uint_len_negfix.
+
+(* ---- no amplification at the TYPED level (Model.TypedDec2, measure of the decoded value: Model.CavSize; proofs:
+   Proofs/TypedDec2Size.v).  For every setting of the ext-header leniency, of the *CaveatSet decoder variant and of the fuel,
+   and with no side condition on the bytes. *)
+From Mac Require Import Model.TypedDec Model.TypedDec2 Model.CavSize Proofs.TypedDecProofs Proofs.TypedDec2Frames
+  Proofs.TypedDec2Size.
+
+Theorem typed_caveat_weight :
+    forall (ext pz : bool) (fuel : nat) (ty : N) (b : bytes) (c : cav) (r : bytes),
+    dec_cav ext pz fuel ty b = Some (c, r) -> cav_weight c <= 2 * (length b - length r) + 1.
+Proof. exact (@dec_cav_weight_l). Qed.
+
+Theorem typed_caveat_weight_sharp :
+    forall (ext pz : bool) (fuel : nat) (ty : N) (b : bytes) (c : cav) (r : bytes),
+    dec_cav ext pz fuel ty b = Some (c, r) -> 2 * cav_weight c <= 3 * (length b - length r) + 3.
+Proof. exact (@dec_cav_weight_sharp_l). Qed.
+
+Theorem typed_caveat_reads_a_prefix :
+    forall (ext pz : bool) (fuel : nat) (ty : N) (b : bytes) (c : cav) (r : bytes),
+    dec_cav ext pz fuel ty b = Some (c, r) -> length r < length b.
+Proof. exact (@dec_cav_consumed_l). Qed.
+
+Theorem typed_caveat_count :
+    forall (ext pz : bool) (fuel : nat) (ty : N) (b : bytes) (c : cav) (r : bytes),
+    dec_cav ext pz fuel ty b = Some (c, r) -> 2 * cav_count c <= length b - length r + 1.
+Proof. exact (@dec_cav_count_l). Qed.
+
+Theorem typed_caveat_depth :
+    forall (ext pz : bool) (fuel : nat) (ty : N) (b : bytes) (c : cav) (r : bytes),
+    dec_cav ext pz fuel ty b = Some (c, r) -> cav_depth c <= length b - length r.
+Proof. exact (@dec_cav_depth_l). Qed.
+
+Theorem typed_caveat_depth_within_fuel :
+    forall (ext pz : bool) (fuel : nat) (ty : N) (b : bytes) (c : cav) (r : bytes),
+    dec_cav ext pz fuel ty b = Some (c, r) -> cav_depth c <= fuel.
+Proof. exact (@dec_cav_depth_fuel_l). Qed.
+
+Theorem typed_caveat_fuel_input_length_suffices :
+    forall (ext pz : bool) (f : nat) (ty : N) (b : bytes) (x : cav * bytes),
+    dec_cav ext pz f ty b = Some x -> dec_cav ext pz (S (length b)) ty b = Some x.
+Proof. exact (@dec_cav_fuel_enough_l). Qed.
+
+Theorem typed_set_weight :
+    forall (ext pz : bool) (b : bytes) (cs : list cav),
+    dec_set_typed_gen ext pz b = Some cs -> set_weight cs <= 2 * length b.
+Proof. exact (@dec_set_typed_weight_l). Qed.
+
+Theorem typed_set_weight_sharp :
+    forall (ext pz : bool) (b : bytes) (cs : list cav),
+    dec_set_typed_gen ext pz b = Some cs -> 2 * set_weight cs <= 3 * length b.
+Proof. exact (@dec_set_typed_weight_sharp_l). Qed.
+
+Theorem typed_set_count :
+    forall (ext pz : bool) (b : bytes) (cs : list cav),
+    dec_set_typed_gen ext pz b = Some cs -> length cs <= length b / 2.
+Proof. exact (@dec_set_typed_count_l). Qed.
+
+Theorem typed_set_count_nested :
+    forall (ext pz : bool) (b : bytes) (cs : list cav),
+    dec_set_typed_gen ext pz b = Some cs -> length (flat_all cs) <= length b / 2.
+Proof. exact (@dec_set_typed_count_all_l). Qed.
+
+Theorem typed_set_depth :
+    forall (ext pz : bool) (b : bytes) (cs : list cav),
+    dec_set_typed_gen ext pz b = Some cs -> Forall (fun c : cav => cav_depth c <= length b / 2) cs.
+Proof. exact (@dec_set_typed_depth_l). Qed.
+
+Theorem typed_google_uid_bits :
+    forall (b : bytes) (n : N) (r : bytes),
+    byte_list b -> dec_body_rest 25 b = Some (CGoogleUserID n, r) -> (N.log2 n < 8 * N.of_nat (length b - length r))%N.
+Proof. exact (@google_uid_bits_l). Qed.
+
+(* the constants cannot be lowered: one nil byte is an Organization of 3 units; 1000 of them in a set are 2003 bytes and 3000
+   units; K1 = 1 fails for K0 <= 8 on 92 dc 00 18 (00 c0)x12 c0 (29 bytes, 38 units) *)
+Theorem typed_caveat_weight_is_tight :
+    dec_cav true false 2 0 [192%N] = Some (COrganization 0 0, []) /\
+    cav_weight (COrganization 0 0) = 3 /\ 3 = 2 * (1 - 0) + 1 /\ 2 * 3 = 3 * (1 - 0) + 3.
+Proof. exact (@dec_cav_weight_tight). Qed.
+
+Theorem typed_set_weight_is_tight :
+    exists cs : list cav,
+      dec_set_typed ([220%N; 7%N; 208%N] ++ nil_orgs 1000) = Some cs /\
+      length ([220%N; 7%N; 208%N] ++ nil_orgs 1000) = 2003 /\
+      set_weight cs = 3000 /\ length cs = 1000 /\ 2003 / 2 = 1001.
+Proof. exact (@dec_set_typed_weight_tight). Qed.
+
+Theorem typed_caveat_weight_factor_1_refuted :
+    exists c : cav,
+      dec_cav true false 30 13 ([146%N; 220%N; 0%N; 24%N] ++ nil_orgs 12 ++ [192%N]) = Some (c, []) /\
+      length ([146%N; 220%N; 0%N; 24%N] ++ nil_orgs 12 ++ [192%N]) = 29 /\
+      cav_weight c = 38 /\ cav_weight c > 1 * (29 - 0) + 8.
+Proof. exact (@dec_cav_weight_K1_is_1_refuted). Qed.
+
+Theorem typed_repeated_ifs_key_appends :
+    dec_cav true false 22 13
+      [131%N; 163%N; 73%N; 102%N; 115%N; 146%N; 0%N; 192%N; 163%N; 73%N; 102%N; 115%N; 146%N; 4%N; 192%N;
+       164%N; 69%N; 108%N; 115%N; 101%N; 1%N] =
+    Some (CIfPresent (Some [COrganization 0 0; CValidityWindow 0 0]) 1, []) /\
+    cav_weight (CIfPresent (Some [COrganization 0 0; CValidityWindow 0 0]) 1) = 8.
+Proof. exact (@dec_cav_repeated_ifs). Qed.
+
+Theorem typed_nesting_needs_fuel :
+    dec_cav true false 3 13 [146%N; 146%N; 13%N; 146%N; 146%N; 13%N; 192%N; 192%N; 192%N] =
+    Some (CIfPresent (Some [CIfPresent (Some [CIfPresent None 0]) 0]) 0, []) /\
+    cav_depth (CIfPresent (Some [CIfPresent (Some [CIfPresent None 0]) 0]) 0) = 3 /\
+    dec_cav true false 2 13 [146%N; 146%N; 13%N; 146%N; 146%N; 13%N; 192%N; 192%N; 192%N] = None.
+Proof. exact (@dec_cav_nested_3). Qed.
+
+Print Assumptions typed_caveat_weight.
+Print Assumptions typed_caveat_weight_sharp.
+Print Assumptions typed_caveat_reads_a_prefix.
+Print Assumptions typed_caveat_count.
+Print Assumptions typed_caveat_depth.
+Print Assumptions typed_caveat_depth_within_fuel.
+Print Assumptions typed_caveat_fuel_input_length_suffices.
+Print Assumptions typed_set_weight.
+Print Assumptions typed_set_weight_sharp.
+Print Assumptions typed_set_count.
+Print Assumptions typed_set_count_nested.
+Print Assumptions typed_set_depth.
+Print Assumptions typed_google_uid_bits.
+Print Assumptions typed_caveat_weight_is_tight.
+Print Assumptions typed_set_weight_is_tight.
+Print Assumptions typed_caveat_weight_factor_1_refuted.
+Print Assumptions typed_repeated_ifs_key_appends.
+Print Assumptions typed_nesting_needs_fuel.
